@@ -52,7 +52,7 @@ def tu(g, cases):
     pdef = 'parser(n%d, terms(%s), nterms(%s), rules(\n%s\n    ))' % (ntid[g.root], ', '.join(tname[t] for t in g.ts),
                                                                    ', '.join('n%d' % i for i in range(len(g.nts))), ',\n'.join(rl))
     o.append('constexpr auto p = %s;' % pdef)
-    o.append('template<typename B> constexpr auto run(const B& b, bool ws, bool nl) { utils::no_stream s; return p.parse(parse_options{}.set_skip_whitespace(ws).set_skip_newline(nl), b, s); }')
+    o.append('template<typename B> constexpr auto run(const B& b, bool ws, bool nl, bool vb = false) { utils::no_stream s; return p.parse(parse_options{}.set_skip_whitespace(ws).set_skip_newline(nl).set_verbose(vb), b, s); }')
     o.append('template<typename P, typename B> auto runp(const P& q, const B& b, bool ws, bool nl) { utils::no_stream s; return q.parse(parse_options{}.set_skip_whitespace(ws).set_skip_newline(nl), b, s); }')
     o.append('#ifndef VERIF_RUNTIME_ONLY')
     for i, c in enumerate(cases):
@@ -62,6 +62,10 @@ def tu(g, cases):
             o.append('static_assert(!r%d.has_value() || r%d.value() == %du, "CT%d:value");' % (i, i, c['val'], i))
         else:
             o.append('static_assert(!r%d.has_value(), "CT%d:reject");' % (i, i))
+        if not c['ok'] or i % 3 == 0:
+            # the same parse with verbose on (the trace goes to no_stream): still a constant expression, same outcome
+            o.append('constexpr auto v%d = run(cstring_buffer(%s), %s, %s, true);' % (i, lit(c['bytes']), 'true' if c['ws'] else 'false', 'true' if c['nl'] else 'false'))
+            o.append('static_assert(v%d.has_value() == r%d.has_value(), "CT%d:verbose");' % (i, i, i))
     o.append('#endif')
     o.append('int main() {')
     o.append('  auto* q = new auto(%s);  // the same parser, constructed at run time' % pdef)
@@ -133,7 +137,7 @@ def lex_tu(terms, shape_rules, cases):
     rl = ['        n0() >= LF{0u}'] + ['        n0(n0, %s) >= LF{%du}' % (', '.join(tn[k] for k in rs), i + 1) for i, rs in enumerate(shape_rules)]
     pdef = 'parser(n0, terms(%s), nterms(n0), rules(\n%s\n    ))' % (', '.join(tn[i] for i in range(len(terms))), ',\n'.join(rl))
     o.append('constexpr auto p = %s;' % pdef)
-    o.append('template<typename B> constexpr auto run(const B& b, bool ws, bool nl) { utils::no_stream s; return p.parse(parse_options{}.set_skip_whitespace(ws).set_skip_newline(nl), b, s); }')
+    o.append('template<typename B> constexpr auto run(const B& b, bool ws, bool nl, bool vb = false) { utils::no_stream s; return p.parse(parse_options{}.set_skip_whitespace(ws).set_skip_newline(nl).set_verbose(vb), b, s); }')
     o.append('template<typename P, typename B> auto runp(const P& q, const B& b, bool ws, bool nl) { utils::no_stream s; return q.parse(parse_options{}.set_skip_whitespace(ws).set_skip_newline(nl), b, s); }')
     o.append('#ifndef VERIF_RUNTIME_ONLY')
     for i, c in enumerate(cases):
@@ -143,6 +147,10 @@ def lex_tu(terms, shape_rules, cases):
             o.append('static_assert(!r%d.has_value() || r%d.value() == %du, "CT%d:value");' % (i, i, c['val'], i))
         else:
             o.append('static_assert(!r%d.has_value(), "CT%d:reject");' % (i, i))
+        if not c['ok'] or i % 3 == 0:
+            # the same parse with verbose on (the trace goes to no_stream): still a constant expression, same outcome
+            o.append('constexpr auto v%d = run(cstring_buffer(%s), %s, %s, true);' % (i, lit(c['bytes']), 'true' if c['ws'] else 'false', 'true' if c['nl'] else 'false'))
+            o.append('static_assert(v%d.has_value() == r%d.has_value(), "CT%d:verbose");' % (i, i, i))
     o.append('#endif')
     o.append('int main() {')
     o.append('  auto* q = new auto(%s);  // the same parser, constructed at run time' % pdef)
